@@ -6455,8 +6455,16 @@ impl Nudge {
 
         assert!(smallest >= Unit::Day);
         let sign = balanced.get_sign_ranged();
-        let truncated = increment
-            * balanced.get_units_ranged(smallest).div_ceil(increment);
+        let units = if smallest == Unit::Week {
+            // When balancing up to units bigger than weeks, no weeks are
+            // produced. The whole weeks are in the days instead, and we'd
+            // otherwise drop them below.
+            let days: NoUnits = balanced.get_days_ranged().rinto();
+            balanced.get_units_ranged(smallest) + (days / C(7))
+        } else {
+            balanced.get_units_ranged(smallest)
+        };
+        let truncated = increment * units.div_ceil(increment);
         let span = balanced
             .without_lower(smallest)
             .try_units_ranged(smallest, truncated.rinto())
